@@ -216,6 +216,29 @@ def deep_modal_template(rng):
         conc = chain(rng.choice((0, 1)), main[2][0])
     return prems, conc
 
+def dead_end_template(rng):
+    """Several possibility premises whose bodies are boxed: sibling worlds that have no successor
+    of their own until a frame rule gives them one, each with its own box waiting."""
+    def lit():
+        a = ('A', rng.randrange(2), 0)
+        return a if rng.random() < 0.5 else ('O', 'Negation', (a,))
+    def box(s): return ('O', 'Necessity', (s,))
+    def dia(s): return ('O', 'Possibility', (s,))
+    prems = []
+    for _ in range(rng.choice((2, 2, 3))):
+        body = box(lit())
+        if rng.random() < 0.25:
+            body = ('O', 'Conjunction', (('A', 2, 0), body))
+        prems.append(dia(body) if rng.random() < 0.85 else dia(dia(body)))
+    if rng.random() < 0.35:
+        prems.append(box(dia(('A', 2, 0))))
+    rng.shuffle(prems)
+    r = rng.random()
+    conc = ('A', 1, 0) if r < 0.5 else (dia(lit()) if r < 0.75 else ('O', 'Negation', (rng.choice(prems),)))
+    if conc[0] == 'O' and conc[1] == 'Negation' and conc[2][0] in prems and len(prems) > 1:
+        prems.remove(conc[2][0])
+    return prems, conc
+
 def witness_worlds_template(rng):
     """Quantified sentences and instances of their matrices spread over different worlds: the
     witness of an existential at one world next to the same predication at another."""
@@ -265,6 +288,8 @@ def gen_case(rng, logic, fragment=None, p_example=0.3):
         return witness_worlds_template(rng)
     if fragment in (None, 'modal') and sem.modal and rng.random() < 0.08:
         return deep_modal_template(rng)
+    if fragment in (None, 'modal') and sem.modal and rng.random() < (0.2 if sem.frame == 'D' else 0.05):
+        return dead_end_template(rng)
     if fragment in (None, 'modal') and sem.modal and rng.random() < (0.5 if sem.frame == 'D' else 0.3):
         return modal_template(rng)
     if fragment in (None, 'fo') and sem.quantified and rng.random() < 0.15:
